@@ -824,8 +824,11 @@ class Container:
             ratio = 1.0  # the whole content, up to internal precision
 
         source_container, to = deepcopy(source_container), deepcopy(self)
+        transferred_mass = 0  # in grams, for the instructions
         for substance, amount in source_container.contents.items():
             to_transfer = amount * ratio
+            transferred_mass += Unit.convert_from(substance, to_transfer,
+                                                  'U' if substance.is_enzyme() else config.moles_storage_unit, 'g')
             to.contents[substance] = round(to.contents.get(substance, 0) + to_transfer,
                                            config.internal_precision)
             source_container.contents[substance] = round(source_container.contents[substance] - to_transfer,
@@ -838,11 +841,7 @@ class Container:
             transfer = Unit.convert_from_storage(ratio * source_container.volume, 'L')
             transfer, unit = Unit.get_human_readable_unit(transfer, 'L')
         else:
-            # total mass in source container times ratio
-            mass = sum(Unit.convert(substance,
-                                    f"{amount} {config.moles_storage_unit if not substance.is_enzyme() else 'U'}",
-                                    "mg") for substance, amount in source_container.contents.items())
-            transfer, unit = Unit.get_human_readable_unit(mass * ratio, 'mg')
+            transfer, unit = Unit.get_human_readable_unit(transferred_mass, 'g')
         precision = config.precisions[unit] if unit in config.precisions else config.precisions['default']
         to.instructions += f"\nTransfer {round(transfer, precision)} {unit} of {source_container.name} to {to.name}"
         to.volume = 0
